@@ -351,10 +351,11 @@ def lexems_are_kept(ctx):
     for a, _k in chain:
         if a["k"] == "Loop":
             seen_loop = True
-        elif seen_loop and a["k"] in ("Match", "If") and not str(a.get("src", "")).startswith(("WhileLet", "ForLoop", "WhileDesugar")) and \
-                any(y is pushes[0] for y in walk_exprs(a)) and "next_lexem" not in render(a.get("scrut", a.get("c", a))):
+            stmt = None
+        elif seen_loop and stmt is None and a["k"] in ("Match", "If", "Block") and \
+                not any(y["k"] in ("MCall", "Call") and (y.get("m") == "next_lexem" or str(y.get("callee", "")).endswith("next_lexem")) for y in walk_exprs(a)):
+            # the outermost construct inside the lexing loop that does not fetch the lexem itself: the whole handling of one lexem
             stmt = a
-            break
     if stmt is None:
         stmt = pushes[0]
     var = next((y.get("name") for y in walk_exprs(stmt) if y["k"] == "Path" and y.get("rk") == "Local" and "Lexem" in str(y.get("ty", ""))), "lexem")
@@ -365,7 +366,10 @@ def lexems_are_kept(ctx):
     for lx, kept in cases:
         selfv = {"lexems": []}
         try:
-            interp.eval_in(h, stmt, {"self": selfv, var: lx}, prog=ctx.prog)
+            try:
+                interp.eval_in(h, stmt, {"self": selfv, var: lx}, prog=ctx.prog)
+            except (interp._Continue, interp._Break):
+                pass        # `continue` ends the handling of this lexem
         except interp.Undecided as e:
             ctx.obligation(False)
             ctx.violation("lexems/unreadable", ctx.where(name, stmt), "cannot evaluate the statement storing a lexem: %s" % e)
